@@ -15,7 +15,10 @@ V: the property text itself in plain Python on every case: (P1) sum / sum_err / 
    has positive weight; (P2) min ... biweight, centroid, shape values against numpy / astropy
    applied to the explicitly enumerated pixel set; (P3) no overlap / nothing unmasked => NaN,
    never an exception; (P4) batch row i == the single-position object with that position's
-   local background.
+   local background; (P5) with properties cached on the parent first, every row of apstats[index list]
+   (non-monotonic, repeats) and of get_ids([...]) == the single-position object of that position.
+   Error maps carry NaN / inf at masked, non-finite-data, zero-weight and in-set pixels: sum_err must
+   ignore the first three and be non-finite for the last, exactly like aperture_photometry.
 """
 import math
 import warnings
@@ -286,7 +289,47 @@ def gen_spec(rng, lattice=True):
                        'rot': rng.choice([0.0, 0.0, rng.uniform(-3, 3)])}
         spec['aper']['positions'] = [[min(max(p[0], -60.0), nx + 60.0), min(max(p[1], -60.0), ny + 60.0)]
                                      for p in positions]
+    if spec['err'] is not None and rng.random() < 0.45:
+        inject_bad_errors(rng, spec)
     return spec
+
+
+def inject_bad_errors(rng, spec):
+    """NaN / inf in the ERROR map at pixels of chosen classes relative to the apertures: (a) user-masked,
+    (b) non-finite data, (c) zero sum- and centre-weight inside the bounding box (corners, annulus holes),
+    (d) inside the pixel set (then sum_err must be non-finite, as aperture_photometry's)."""
+    try:
+        infos = position_info(dict(spec, sigma_clip=None, local_bkg=None))
+    except Exception:       # noqa
+        return
+    data = arr_of(spec['data'])
+    mask = None if spec['mask'] is None else np.array(spec['mask'], dtype=bool)
+    cand = {'a': [], 'b': [], 'c': [], 'd': []}
+    for p in infos:
+        if not p.overlap:
+            continue
+        y0, y1, x0, x1 = p.large
+        for j in range(y1 - y0):
+            for k in range(x1 - x0):
+                y, x = y0 + j, x0 + k
+                if mask is not None and mask[y, x]:
+                    cand['a'].append((y, x))
+                elif not math.isfinite(data[y, x]):
+                    cand['b'].append((y, x))
+                elif p.aws[j, k] == 0 and p.awc[j, k] == 0:
+                    cand['c'].append((y, x))
+                elif p.aws[j, k] > 0:
+                    cand['d'].append((y, x))
+    kinds = []
+    err = [[_enc(v) for v in row] for row in spec['err']]
+    avail = [c for c in 'abcd' if cand[c]]
+    for cls in rng.sample(avail, min(len(avail), rng.randint(1, 3))):
+        if cls != 'd' or rng.random() < 0.4:
+            y, x = rng.choice(cand[cls])
+            err[y][x] = rng.choice(['nan', 'nan', 'inf'])
+            kinds.append(cls)
+    spec['err'] = err
+    spec['bad_err'] = sorted(set(kinds))
 
 
 # --------------------------------------------------------------------------
@@ -296,9 +339,8 @@ def _vals(x):
     return np.atleast_1d(np.asarray(getattr(x, 'value', x), dtype=float))
 
 
-def run_impl(spec, index=None, bkg=None):
-    """ApertureStats on the spec (or on the single position `index` with local background `bkg`).
-    -> dict name -> array with one row per position; raises what the implementation raises."""
+def make_stats(spec, index=None, bkg=None):
+    """the ApertureStats object of the spec (or of the single position `index` with local background `bkg`)"""
     from photutils.aperture import ApertureStats
     data, err, mask, aper, pix, wcs, sc, lb = build(spec)
     if index is not None:           # the pixel aperture of that position alone
@@ -307,9 +349,16 @@ def run_impl(spec, index=None, bkg=None):
         lb = bkg
     with warnings.catch_warnings():
         warnings.simplefilter('ignore')
-        s = ApertureStats(data.copy(), aper, error=None if err is None else err.copy(),
-                          mask=None if mask is None else mask.copy(), wcs=wcs, sigma_clip=sc,
-                          sum_method=spec['sum_method'], subpixels=spec['subpixels'], local_bkg=lb)
+        return ApertureStats(data.copy(), aper, error=None if err is None else err.copy(),
+                             mask=None if mask is None else mask.copy(), wcs=wcs, sigma_clip=sc,
+                             sum_method=spec['sum_method'], subpixels=spec['subpixels'], local_bkg=lb)
+
+
+def run_impl(spec, index=None, bkg=None):
+    """-> dict name -> array with one row per position; raises what the implementation raises."""
+    s = make_stats(spec, index, bkg)
+    with warnings.catch_warnings():
+        warnings.simplefilter('ignore')
         n = s.n_apertures
         out = {'n': n}
         for p in NAN_PROPS + ['bbox_xmin', 'bbox_xmax', 'bbox_ymin', 'bbox_ymax']:
@@ -493,7 +542,7 @@ def to_coq(spec, infos, impl, phot):
     scene = Raw('(mkscene %d %d %s %s %s %s)' % (
         ny, nx, coq(vimg(data, KD)),
         coq(None if mask is None else Some([[bool(v) for v in r] for r in mask])),
-        coq(None if err is None else Some(zimg(err, KD))), coq(center)))
+        coq(None if err is None else Some(vimg(err, KD))), coq(center)))
     apers = []
     for p in infos:
         def cl(c):
@@ -771,6 +820,64 @@ def single_oracle(spec, impl, infos):
     return viol
 
 
+PERM_PARENT_FIRST = ('sum', 'min', 'xcentroid')          # evaluated on the parent before indexing
+PERM_CHILD_AFTER = ('sum', 'sum_err', 'sum_aper_area', 'center_aper_area', 'min', 'max', 'mean', 'median', 'std',
+                    'var', 'xcentroid', 'ycentroid', 'semimajor_sigma', 'orientation', 'bbox_xmin', 'bbox_ymin')
+
+
+def perm_oracle(spec, infos, rng_seed):
+    """P5: properties are cached on the parent, then the parent is indexed by an arbitrary index list
+    (non-monotonic, repeats) or by get_ids; every row j of the child must equal the single-position
+    ApertureStats of position perm[j] with that position's local background."""
+    import random
+    viol = []
+    n = len(infos)
+    if n < 2 or any(p.bkg is None for p in infos):
+        return viol
+    rng = random.Random(rng_seed)
+    singles = {}
+    for form in ('list', 'get_ids'):
+        if form == 'list':
+            perm = [rng.randrange(n) for _ in range(rng.randint(2, n + 1))]
+            if sorted(perm) == perm:
+                perm = perm[::-1] if len(set(perm)) > 1 else [n - 1, 0] + perm
+        else:
+            perm = rng.sample(range(n), rng.randint(2, n))
+            if sorted(perm) == perm:
+                perm = perm[::-1]
+        with warnings.catch_warnings():
+            warnings.simplefilter('ignore')
+            try:
+                parent = make_stats(spec)
+                for name in PERM_PARENT_FIRST:
+                    getattr(parent, name)
+                child = parent[perm] if form == 'list' else parent.get_ids([i + 1 for i in perm])
+                got = {name: _vals(getattr(child, name)) for name in PERM_CHILD_AFTER}
+                mom = np.asarray(child.moments, dtype=float).reshape((len(perm), 4, 4))
+            except Exception as e:      # noqa
+                viol.append(('ApertureStats.__getitem__:exception', f'{form} index {perm}: {type(e).__name__}: '
+                             f'{str(e)[:100]}', {'index': perm, 'form': form}))
+                continue
+        for j, i in enumerate(perm):
+            if i not in singles:
+                one = make_stats(spec, index=i, bkg=infos[i].bkg)
+                with warnings.catch_warnings():
+                    warnings.simplefilter('ignore')
+                    singles[i] = ({name: _vals(getattr(one, name))[0] for name in PERM_CHILD_AFTER},
+                                  np.asarray(one.moments, dtype=float).reshape((4, 4)))
+            want, wmom = singles[i]
+            bad = [name for name in PERM_CHILD_AFTER
+                   if len(got[name]) != len(perm) or not same(got[name][j], want[name], rtol=1e-9, atol=1e-9)]
+            if not bad and not all(same(a, b, rtol=1e-9, atol=1e-9) for a, b in zip(mom[j].ravel(), wmom.ravel())):
+                bad = ['moments']
+            if bad:
+                viol.append(('ApertureStats.__getitem__:reordered-child', f'row {j} of apstats[{perm}] ({form}; '
+                             f'{", ".join(PERM_PARENT_FIRST)} cached on the parent first) differs from the '
+                             f'single-position result of position {i} in {bad[:6]}', {'index': perm, 'form': form}))
+                break
+    return viol
+
+
 # --------------------------------------------------------------------------
 def describe(spec):
     return {k: spec[k] for k in ('data', 'err', 'mask', 'aper', 'sum_method', 'subpixels', 'sigma_clip',
@@ -808,6 +915,9 @@ def classify(ctx, spec, infos, impl):
                                                      ('per-position' if impl is not None else 'invalid-length')))
     ctx.stat('inputs', 'mask' if spec['mask'] is not None else 'no-mask')
     ctx.stat('inputs', 'error' if spec['err'] is not None else 'no-error')
+    for c in spec.get('bad_err', []):
+        ctx.stat('non-finite-error-at', {'a': 'masked-pixel', 'b': 'non-finite-data-pixel',
+                                        'c': 'zero-weight-pixel-in-bbox', 'd': 'pixel-of-the-set'}[c])
     ctx.stat('inputs', 'scalar-aperture' if spec['aper']['scalar'] else 'position-list')
 
 
@@ -819,7 +929,7 @@ def run(ctx):
         'NaN/inf) x six pixel aperture classes and their sky forms through a TAN WCS x 1..4 positions '
         '(inside, edge, corner, outside, touching, pixel-corner) x mask (none / all / none set / random) x error '
         'x sum_method (center, subpixel 1..16, exact) x sigma_clip (None or SigmaClip sigma/maxiters/cenfunc/stdfunc) '
-        'x local_bkg (None, scalar, per position, wrong length); thorough adds arbitrary-double images for the '
+        'x local_bkg (None, scalar, per position, wrong length) x NaN/inf in the error map at masked / non-finite-data / zero-weight / in-set pixels; re-ordered children apstats[index list], get_ids; thorough adds arbitrary-double images for the '
         'Python oracles; non-trivial = some position has a non-empty pixel set; distinct = distinct full spec')
     ctx.assumptions += [
         "which pixels have their centre in the aperture / the sum-method weights are taken from the implementation's "
@@ -878,6 +988,10 @@ def run(ctx):
             for sig, what, detail in single_oracle(spec, impl, infos):
                 ctx.violation(sig, what, dict(describe(spec), detail=detail))
             ctx.support('batch_row_equals_single_position', 1)
+        if k % 3 == 1 and len(infos) >= 2:
+            for sig, what, detail in perm_oracle(spec, infos, ctx.seed * 100003 + k):
+                ctx.violation(sig, what, dict(describe(spec), detail=detail, perm_seed=ctx.seed * 100003 + k))
+            ctx.support('reordered_child_rows_equal_single_position', 1)
         coq_cases.append(to_coq(spec, infos, impl, phot))
         keep.append((spec, impl, infos))
         if len(ctx.cov['samples']) < 2 and nontrivial:
@@ -930,6 +1044,8 @@ def replay(obj):
     spec['kinds'] = []
     v = oracles(spec)
     v += [] if v else single_oracle(spec, run_impl(spec), position_info(spec))
+    if r.get('perm_seed') is not None or not v:
+        v += perm_oracle(spec, position_info(spec), r.get('perm_seed') or 0)
     for sig, what, detail in v:
         print(f'[{sig}] {what} {detail}')
     print('property holds on this input' if not v else 'property FAILS on this input')
